@@ -337,16 +337,18 @@ func neighbors(c *mc.Ctx) {
 					u := stripAnyAlias(du)
 					if _, ok := files[u]; !ok {
 						// classify: does the table lie wholly inside the key-group range of one other operator?
-						class := "range-shared"
+						// classify: does the table hold any key group of the retaining operator at all?
+						// (ranges of operators are disjoint: a table wholly inside one neighbour's
+						// range, or spread over several neighbours' ranges, lies outside its own)
+						class, holds := "range-shared", "unknown key groups"
 						if r, ok := docRanges[du]; ok && len(r.start) >= 2 && len(r.end) >= 2 {
 							tr := partitioning.KeyGroupRangeFromBytes(r.start[:2], r.end[:2])
-							for j, other := range ops {
-								if j != i && other.rng.Contains(tr) {
-									class = "wholly-inside-another-operators-range"
-								}
+							holds = "key groups " + tr.String()
+							if !st.rng.Overlaps(tr) {
+								class = "wholly-outside-the-retaining-operators-range"
 							}
 						}
-						c.FailSig("needed-file-deleted:"+kindOf(u)+":"+class, "after %s: %s, referenced by checkpoint %d that operator %d retains, no longer exists (cleanup deleted: %v)", after, rel(u), h.id, i, deleted)
+						c.FailSig("needed-file-deleted:"+kindOf(u)+":"+class, "after %s: %s (%s), referenced by checkpoint %d that operator %d (range %s) retains, no longer exists (cleanup deleted: %v)", after, rel(u), holds, h.id, i, st.rng, deleted)
 					}
 				}
 			}
